@@ -735,6 +735,7 @@ pub fn example_templates() -> Vec<(String, Vec<u8>)> {
         }
     }
     let mut out = Vec::new();
-    walk(std::path::Path::new("/repo/examples"), &mut out);
+    let repo = std::env::var("VERIF_REPO").unwrap_or_else(|_| "/repo".into());
+    walk(&std::path::Path::new(&repo).join("examples"), &mut out);
     out
 }
